@@ -159,12 +159,15 @@ const c18PrivXML = `<?xml version="1.0" encoding="UTF-8"?>
 <avp name="Vendor-Id" code="9266" must="-" may="P" must-not="V" may-encrypt="-"><data type="Unsigned32"/></avp>
 <avp name="Auth-Application-Id" code="9258" must="M" may="P" must-not="-" may-encrypt="-" vendor-id="777"><data type="Unsigned32"/></avp>
 <avp name="Acct-Application-Id" code="9259" must="-" may="P" must-not="V" may-encrypt="-"><data type="Unsigned32"/></avp>
+<avp name="Event-Timestamp" code="9055" must="-" may="P" must-not="V" may-encrypt="-"><data type="Time"/></avp>
+<avp name="Class" code="9025" must="M" may="P" must-not="-" may-encrypt="-" vendor-id="4321"><data type="OctetString"/></avp>
 </application></diameter>`
 
 // c18PrivMap: default code -> (code, flags, vendor) a caller would build by hand from c18PrivXML.
 var c18PrivMap = map[uint32][3]uint32{
 	264: {9264, 0x00, 0}, 296: {9296, 0xC0, 4321}, 268: {9268, 0x00, 0}, 263: {9263, 0x40, 0},
 	260: {9260, 0x00, 0}, 279: {9279, 0xC0, 4321}, 266: {9266, 0x00, 0}, 258: {9258, 0xC0, 777}, 259: {9259, 0x00, 0},
+	55: {9055, 0x00, 0}, 25: {9025, 0xC0, 4321},
 }
 
 func c18PrivNodes(ns []refcodec.Node) []refcodec.Node {
@@ -401,7 +404,7 @@ func c18Equal(a, b reflect.Value) string {
 		}
 		return ""
 	case reflect.Struct:
-		if a.Type() == tTime || a.Type().ConvertibleTo(tTime) && a.Type().Name() == "Time" {
+		if a.Type() == tTime || a.Type().ConvertibleTo(tTime) {
 			ta := a.Convert(tTime).Interface().(time.Time)
 			tb := b.Convert(tTime).Interface().(time.Time)
 			if ta.Unix() != tb.Unix() {
@@ -529,6 +532,29 @@ type c18UntaggedStructField struct {
 	RC   uint32 `avp:"Result-Code"`
 	Note *C18Second
 	Host string `avp:"Origin-Host"`
+}
+
+// application-defined types over the supported holders (type Stamp time.Time with its own text
+// format is the usual idiom): they marshal and unmarshal like the type they are defined over
+type c18Str string
+type c18U32 uint32
+type c18Stamp time.Time
+type c18DStamp datatype.Time
+type c18Raw []byte
+type c18DefinedTypes struct {
+	Host  c18Str      `avp:"Origin-Host"`
+	RC    c18U32      `avp:"Result-Code"`
+	At    c18Stamp    `avp:"Event-Timestamp"`
+	Class c18Raw      `avp:"Class"`
+	Apps  []c18U32    `avp:"Auth-Application-Id"`
+}
+type c18DefinedTimes struct {
+	At   *c18Stamp   `avp:"Event-Timestamp"`
+	Host c18Str      `avp:"Origin-Host"`
+}
+type c18DefinedTimeSlice struct {
+	Ats  []c18DStamp `avp:"Event-Timestamp"`
+	Host c18Str      `avp:"Origin-Host"`
 }
 
 // many AVPs on ONE level (more than a dozen), with a code repeated many times: order is data
@@ -788,6 +814,25 @@ func c18Statics() []c18Static {
 			h, r := strs[v%3], strs[v/3%3]
 			return &c18UntaggedStructField{Peer: C18Common{"peer." + h, "peer." + r}, RC: u32s[v%3], Note: &C18Second{"note", 7}, Host: h},
 				[]refcodec.Node{u32n(268, u32s[v%3]), strn(264, h)}, true
+		}},
+		{"application-defined-types", func(v int) (interface{}, []refcodec.Node, bool) {
+			if v >= 9 {
+				return nil, nil, false
+			}
+			h, a := strs[1+v%2], u32s[v/3%3]
+			at := time.Unix(1449675653+int64(v)*86400*365, 0)
+			tn := refcodec.Node{Code: 55, Flags: 0x40, Payload: refcodec.TimeFromUnix(at.Unix())}
+			switch v % 3 {
+			case 0:
+				return &c18DefinedTypes{Host: c18Str(h), RC: c18U32(a), At: c18Stamp(at), Class: c18Raw("cl" + h), Apps: []c18U32{c18U32(a), 7}},
+					[]refcodec.Node{strn(264, h), u32n(268, a), tn, strn(25, "cl"+h), u32n(258, a), u32n(258, 7)}, true
+			case 1:
+				st := c18Stamp(at)
+				return &c18DefinedTimes{At: &st, Host: c18Str(h)}, []refcodec.Node{tn, strn(264, h)}, true
+			}
+			at2 := at.Add(time.Hour)
+			return &c18DefinedTimeSlice{Ats: []c18DStamp{c18DStamp(at), c18DStamp(at2)}, Host: c18Str(h)},
+				[]refcodec.Node{tn, {Code: 55, Flags: 0x40, Payload: refcodec.TimeFromUnix(at2.Unix())}, strn(264, h)}, true
 		}},
 		{"many-avps-on-one-level", func(v int) (interface{}, []refcodec.Node, bool) {
 			if v >= 4 {
@@ -1165,7 +1210,7 @@ func runC18(ctx *ev.Ctx) {
 			}
 		}
 	}
-	ctx.Rule = "struct types built with reflect.StructOf: one field for each of 24 (AVP, holder family) rows - including fields declared with a go-diameter datatype other than the dictionary's, and a vendor-specific AVP whose must-not lists V - (including a vendor-specific AVP whose must attribute does not list V and a vendor-less one whose must does) (every scalar data type, a vendor-specific AVP, Float32/64, IPv4/6, IPFilterRule, QoSFilterRule from a generated dictionary) x each Go holder type (native scalar, datatype type, net.IP, []byte, time.Time) x wrapper {T, *T, []T, []*T} x nine tag forms (plain, omitempty, each with a second key before/after, other keys carrying their own ,omitempty option before/after) x values {boundary atoms; nil pointer; nil, empty, 1-, 2- and 4-element slices}; plus static shapes: nested struct, pointer to struct, slice of structs with omitempty members (an element or a pointed-to struct all of whose members are omitted still yields its - empty - Grouped AVP), slice of pointers, anonymous embedded struct (first, after a tagged field, in the middle, of an unexported type; two embedded structs declaring the same Go field names; an outer field shadowing an embedded one; untagged NAMED fields of struct / pointer-to-struct type whose types carry avp tags - not marshalled), 5 / 11 / 13 / 27 repetitions of one code next to other repeated codes on one level (order is data), group in group, AVP / *AVP / []*AVP / []AVP fields (the last also as a group member), optional group members held through pointers with omitempty (each of three members nil, pointing to 0, pointing to 7 - a non-nil pointer to the zero value is a present member), in a nested struct, a pointer to one and slices of both; the struct shapes also in a message carrying a private dictionary that defines every name used with another code, other flags and vendor ids (members of nested structs must be resolved through the message's dictionary too). Six tag names the default dictionary defines differently in two applications (vendor id, flags or data type) are marshalled into messages of the one application, the other, and the first again, in both orders, in one process. Every struct shape is marshalled a second time, with its string members changed and its ready-made []*AVP list (built by append, or with a capacity hint) shared, into a second message: the first message must not change. Every other case marshals into a message that already holds an AVP and has been marshalled into before. Oracle: the AVP bytes Marshal produces equal the AVPs built by hand from the reference dictionary entry (code, vendor id, M from must, V from vendor, typed value); Unmarshal directly and after Serialize+ReadMessage reproduces the field values (nil == empty for slices, times by second, floats by bits)."
+	ctx.Rule = "struct types built with reflect.StructOf: one field for each of 24 (AVP, holder family) rows - including fields declared with a go-diameter datatype other than the dictionary's, and a vendor-specific AVP whose must-not lists V - (including a vendor-specific AVP whose must attribute does not list V and a vendor-less one whose must does) (every scalar data type, a vendor-specific AVP, Float32/64, IPv4/6, IPFilterRule, QoSFilterRule from a generated dictionary) x each Go holder type (native scalar, datatype type, net.IP, []byte, time.Time) x wrapper {T, *T, []T, []*T} x nine tag forms (plain, omitempty, each with a second key before/after, other keys carrying their own ,omitempty option before/after) x values {boundary atoms; nil pointer; nil, empty, 1-, 2- and 4-element slices}; plus static shapes: nested struct, pointer to struct, slice of structs with omitempty members (an element or a pointed-to struct all of whose members are omitted still yields its - empty - Grouped AVP), slice of pointers, anonymous embedded struct (first, after a tagged field, in the middle, of an unexported type; two embedded structs declaring the same Go field names; an outer field shadowing an embedded one; untagged NAMED fields of struct / pointer-to-struct type whose types carry avp tags - not marshalled), application-defined types over string / uint32 / time.Time / datatype.Time / []byte as scalars, behind a pointer and as slice elements, 5 / 11 / 13 / 27 repetitions of one code next to other repeated codes on one level (order is data), group in group, AVP / *AVP / []*AVP / []AVP fields (the last also as a group member), optional group members held through pointers with omitempty (each of three members nil, pointing to 0, pointing to 7 - a non-nil pointer to the zero value is a present member), in a nested struct, a pointer to one and slices of both; the struct shapes also in a message carrying a private dictionary that defines every name used with another code, other flags and vendor ids (members of nested structs must be resolved through the message's dictionary too). Six tag names the default dictionary defines differently in two applications (vendor id, flags or data type) are marshalled into messages of the one application, the other, and the first again, in both orders, in one process. Every struct shape is marshalled a second time, with its string members changed and its ready-made []*AVP list (built by append, or with a capacity hint) shared, into a second message: the first message must not change. Every other case marshals into a message that already holds an AVP and has been marshalled into before. Oracle: the AVP bytes Marshal produces equal the AVPs built by hand from the reference dictionary entry (code, vendor id, M from must, V from vendor, typed value); Unmarshal directly and after Serialize+ReadMessage reproduces the field values (nil == empty for slices, times by second, floats by bits)."
 	ctx.Assume = []string{"holder types are those for which the reflect code has a conversion path (AssignableTo / ConvertibleTo); Address holders carry IPv4 / IPv6 only"}
 }
 
